@@ -142,6 +142,12 @@ func histObligs(tier string, panicViol bool) []Oblig {
 			add(0, a, b)
 		}
 	}
+	// an empty payload first, then a non-empty write of either side
+	for _, a := range emptyOps {
+		for _, b := range []int{1, 0, 3, 5, 8, 15, 17} {
+			obs = append(obs, Oblig{Harness: "H_hist2", Args: []int{0, a, 1, b}, PanicViol: panicViol})
+		}
+	}
 	for _, a := range []int{1, 15, 16, 18, 0} {
 		for _, c := range []int{0, 1, 3, 16} {
 			obs = append(obs, Oblig{Harness: "H_hist2", Args: []int{1, a, 0, 1, c}, PanicViol: panicViol})
@@ -355,8 +361,8 @@ func c04Obligs(tier string) []Oblig {
 			}
 		}
 	}
-	for _, k1 := range []int{0, 3, 14, 27, 31, 10, 1, 36} {
-		for _, k2 := range []int{0, 3, 10, 27, 19} {
+	for _, k1 := range []int{0, 3, 14, 27, 31, 10, 1, 36, 12, 13, 11} {
+		for _, k2 := range []int{0, 3, 10, 27, 19, 12} {
 			obs = append(obs, Oblig{Harness: "H_c04p", Args: []int{k1, k2, 2}})
 		}
 	}
@@ -413,7 +419,7 @@ func init() {
 	})
 }
 
-var c02RedactKinds = []int{103, 104, 105, 106, 110, 111, 112, 113, 114}
+var c02RedactKinds = []int{103, 104, 105, 106, 110, 111, 112, 113, 114, 115, 119}
 
 func hasPrecision(d int) bool {
 	switch d {
@@ -464,6 +470,14 @@ func c02Obligs(tier string) []Oblig {
 					continue
 				}
 				obs = append(obs, Oblig{Harness: "H_c02", Args: []int{k, d, dn, lf}})
+			}
+		}
+	}
+	// secrets with concrete markers / truncated sequences around the symbolic bytes
+	for _, k := range []int{0, 1, 12, 14, 19, 24, 25, 27, 31, 103} {
+		for _, d := range []int{0, 1, 3} {
+			for t := 0; t < 6; t++ {
+				obs = append(obs, Oblig{Harness: "H_c02", Args: []int{k, d, 2, 100 + t}})
 			}
 		}
 	}
@@ -522,7 +536,7 @@ func init() {
 	})
 }
 
-var redactKinds = []int{100, 101, 102, 103, 104, 105, 106, 107, 108, 109, 110, 111, 112, 113, 114}
+var redactKinds = []int{100, 101, 102, 103, 104, 105, 106, 107, 108, 109, 110, 111, 112, 113, 114, 115, 116, 117, 118, 119}
 
 func valsObligs(tier string) []Oblig {
 	var obs []Oblig
@@ -550,6 +564,15 @@ func valsObligs(tier string) []Oblig {
 		for _, k := range all {
 			for d := 0; d < nDirectives; d++ {
 				obs = append(obs, Oblig{Harness: "H_vals", Args: []int{k, d, 2}})
+			}
+		}
+	}
+	// integer leaves whose value is a marker code point or the line feed,
+	// under the verbs that print the code point itself (and %v / %d)
+	for _, k := range []int{3, 11, 14, 20, 23, 24, 9, 4, 45, 101, 108, 109, 118, 110} {
+		for _, d := range []int{0, 7, 4, 8, 9, 25, 26, 28, 31, 33} {
+			for leaf := 1; leaf <= 3; leaf++ {
+				obs = append(obs, Oblig{Harness: "H_vals", Args: []int{k, d, 0, leaf}})
 			}
 		}
 	}
@@ -668,6 +691,14 @@ func c13Obligs(tier string) []Oblig {
 						obs = append(obs, Oblig{Harness: "H_c13", Args: []int{variant, acc, 2, 1, a, b, 1}})
 					}
 				}
+			}
+		}
+	}
+	// large buffers: 200 bytes of safe text, then pending unsafe payloads around the accessor
+	for _, variant := range []int{0, 2} {
+		for acc := 0; acc < 6; acc++ {
+			for _, b := range []int{1, 0} {
+				obs = append(obs, Oblig{Harness: "H_c13", Args: []int{variant, acc, 2, 1130, 0, 1, b}})
 			}
 		}
 	}
@@ -810,7 +841,14 @@ func c08Obligs(tier string) []Oblig {
 			}
 		}
 	}
-	for v := 0; v < 12; v++ {
+	for _, pre := range dirtyPreludes {
+		for _, ck := range []int{0, 1, 9} {
+			for _, d := range []int{0, 3} {
+				obs = append(obs, Oblig{Harness: "H_c08", Args: []int{3, d, ck, pre}, PoolMode: 1})
+			}
+		}
+	}
+	for v := 0; v < 14; v++ {
 		for _, s1 := range []int{2, 3, 4, 5, 8} {
 			for _, s2 := range []int{1, 2, 6} {
 				obs = append(obs, Oblig{Harness: "H_c08j", Args: []int{s1, s2, v}})
@@ -834,8 +872,14 @@ func c11pObligs(tier string) []Oblig {
 	if tier == "thorough" {
 		n = 2
 	}
-	for k := 0; k < 13; k++ {
+	for k := 0; k < 14; k++ {
 		for d := 0; d < 9; d++ {
+			if k == 13 || k == 4 {
+				// the later call may be served any printer freed so far (the real
+				// sync.Pool is not LIFO)
+				obs = append(obs, Oblig{Harness: "H_c11p", Args: []int{k, d, n}, PanicViol: true, PoolMode: 1})
+				continue
+			}
 			obs = append(obs, Oblig{Harness: "H_c11p", Args: []int{k, d, n}, PanicViol: true})
 		}
 	}
@@ -867,7 +911,7 @@ func c14Obligs(tier string) []Oblig {
 			}
 		}
 	}
-	ops := []int{0, 1, 2, 3, 4, 5, 6, 7, 11}
+	ops := []int{0, 1, 2, 3, 4, 5, 6, 7, 11, 12, 13, 14, 20 + 41, 20 + 42}
 	// + values with formatting methods: Stringer, nil-receiver Stringers,
 	// error, nil error pointer, GoStringer, Formatter, panicking methods
 	for _, vk := range []int{27, 28, 29, 30, 31, 32, 34, 35, 36, 37, 38, 39} {
@@ -885,7 +929,7 @@ func c14Obligs(tier string) []Oblig {
 		}
 	}
 	if tier == "thorough" {
-		tk := []int{0, 1, 2, 3, 4, 5, 6, 7, 8, 9, 10, 11}
+		tk := []int{0, 1, 2, 3, 4, 5, 6, 7, 8, 9, 10, 11, 12, 13, 14}
 		for vk := 10; vk < nFmtKinds; vk++ {
 			tk = append(tk, 20+vk)
 		}
@@ -975,6 +1019,10 @@ func c16Obligs(tier string) []Oblig {
 	}
 	for wm := 0; wm < 3; wm++ {
 		obs = append(obs, Oblig{Harness: "H_c16", Args: []int{0, 0, 1, 2, wm}})
+		// %w with an error operand outside HelperForErrorf; empty format with operands
+		for _, k := range []int{0, 3, 31, 102} {
+			obs = append(obs, Oblig{Harness: "H_c16", Args: []int{k, k, 1, 3, wm}}, Oblig{Harness: "H_c16", Args: []int{k, 0, 1, 4, wm}})
+		}
 	}
 	for _, k := range []int{0, 3, 7, 14, 19, 102} {
 		for pi := 0; pi < 6; pi++ {
@@ -1011,6 +1059,10 @@ func c17Obligs(tier string) []Oblig {
 				obs = append(obs, Oblig{Harness: "H_c17", Args: []int{ek, pos, 0, 1, 1, 0, pre}, PoolMode: 1})
 			}
 		}
+		// the same error type printed before the hook is installed
+		for _, pos := range []int{0, 1, 2, 3} {
+			obs = append(obs, Oblig{Harness: "H_c17", Args: []int{ek, pos, 0, 1, 1, 0, 4}})
+		}
 		// an earlier operand of the same call that panics / has a nil receiver
 		for po := 1; po <= 4; po++ {
 			for _, pos := range []int{0, 1, 2, 3, 7} {
@@ -1033,7 +1085,7 @@ var dirtyPreludes = []int{13, 14, 5, 6, 17, 18, 20, 22}
 func c06Obligs(tier string) []Oblig {
 	var obs []Oblig
 	kinds := []int{0, 3, 10, 14, 19, 21, 27, 31, 35, 36, 100, 101, 102, 103, 104, 105, 106, 107, 108, 110, 111, 112, 113}
-	dirs := []int{0, 1, 2, 3, 4, 5, 16, 19}
+	dirs := []int{0, 1, 2, 3, 4, 5, 16, 19, 7, 13}
 	for _, pre := range dirtyPreludes {
 		for _, code := range []int{1, 2} {
 			for _, k := range []int{0, 3, 14, 100, 106, 112} {
@@ -1054,10 +1106,10 @@ func c06Obligs(tier string) []Oblig {
 	// scripts
 	for _, code := range []int{2, 1, 21, 12} {
 		for fl := 0; fl < 2; fl++ {
-			for a := 0; a < 9; a++ {
+			for a := 0; a < 11; a++ {
 				obs = append(obs, Oblig{Harness: "H_c06s", Args: []int{code, fl, 1, a}})
-				for b := 0; b < 9; b++ {
-					if tier == "thorough" || (a <= 6 && b <= 6 && code <= 2) {
+				for b := 0; b < 11; b++ {
+					if tier == "thorough" || (a <= 6 && b <= 6 && code <= 2) || (code <= 2 && (a >= 9 || b >= 9) && a != 7 && b != 7 && a != 8 && b != 8) {
 						obs = append(obs, Oblig{Harness: "H_c06s", Args: []int{code, fl, 1, a, b}})
 					}
 				}
@@ -1078,6 +1130,23 @@ func c05Obligs(tier string) []Oblig {
 			for _, shape := range []int{0, 1, 4} {
 				obs = append(obs, Oblig{Harness: "H_c05", Args: []int{ls[0], ls[1], ls[2], shape, 0, 1, 0, pre}, PoolMode: 1})
 			}
+		}
+	}
+	// the operands printed once before the registration (per-type memo)
+	for _, ls := range [][]int{{5, 0, 1}, {0, 5, 4}, {9, 0, 0}, {15, 5, 0}} {
+		for _, shape := range []int{0, 1, 2, 4} {
+			for reg := 1; reg <= 2; reg++ {
+				if ls[0] == 9 && shape != 0 && shape != 4 {
+					continue
+				}
+				obs = append(obs, Oblig{Harness: "H_c05", Args: []int{ls[0], ls[1], ls[2], shape, 0, 1, reg, 100}})
+			}
+		}
+	}
+	// %p of a pointer whose type is a SafeValue
+	for _, fi := range []int{5, 6, 7} {
+		for _, l2 := range []int{0, 2} {
+			obs = append(obs, Oblig{Harness: "H_c05", Args: []int{16, l2, 1, 0, fi, 1, 0}})
 		}
 	}
 	for l1 := 0; l1 < 16; l1++ {
@@ -1114,15 +1183,15 @@ func c05Obligs(tier string) []Oblig {
 
 func c12Obligs(tier string) []Oblig {
 	var obs []Oblig
-	for probe := 0; probe < 10; probe++ {
-		for h := 0; h < 23; h++ {
+	for probe := 0; probe < 13; probe++ {
+		for h := 0; h < 26; h++ {
 			if h == 14 && tier != "thorough" {
 				continue
 			}
 			obs = append(obs, Oblig{Harness: "H_c12", Args: []int{probe, 1, h}, PoolMode: 1})
 		}
 		if tier == "thorough" {
-			for h1 := 0; h1 < 23; h1++ {
+			for h1 := 0; h1 < 26; h1++ {
 				if h1 == 14 {
 					continue
 				}
@@ -1158,14 +1227,14 @@ func init() {
 		map[string]interface{}{"error_kinds": 7, "positions": 9, "verbs": 9, "configurations": "no hook / hook / panicking hook", "error_text": "1 symbolic byte"},
 		nil, stubs, []string{"deeper nesting than 2"})
 	simpleSpec("C06", c06Obligs, []string{"symbolic-under-unsafe", "script-under-unsafe"},
-		map[string]interface{}{"wrapper_nestings": "all 12 up to depth 3", "value_kinds": 21, "directives": 8, "scripts": "1-2 calls from 9 (formatter discovering the SafePrinter, and SafeFormatter)", "leaf": "1 symbolic valid-UTF-8 non-LF byte"},
+		map[string]interface{}{"wrapper_nestings": "all 12 up to depth 3", "value_kinds": 21, "directives": 8, "scripts": "1-2 calls from 11 (formatter discovering the SafePrinter, and SafeFormatter; incl. redact.Fprint/Fprintf onto the printer)", "leaf": "1 symbolic valid-UTF-8 non-LF byte"},
 		[]string{"unsafe renderings are LF-free (LF handling is C03/C09)"}, stubs, []string{"longer scripts"})
 	simpleSpec("C05", c05Obligs, []string{"symbolic-leaves"},
 		map[string]interface{}{"leaves": "3 per call from 9 kinds (unsafe string/int, SafeString, Safe(), SafeInt, registered type, safe-emitting SafeFormatter, SafeValue type)", "shapes": "top level, []interface{}, struct with interface fields, map, Sprint", "formats": 5, "registry": "empty / one registered type", "leaf_bytes": "2 (3 thorough) symbolic bytes each for the unsafe and the safe payload"},
 		[]string{"unsafe payloads are LF-free and valid UTF-8", "the blanked operand is rendered as one leaf"}, stubs, []string{"bad verbs (C04)", "longer payloads"})
 	register(&CheckSpec{ID: "C12", Props: []string{"C12"}, Obligs: c12Obligs, Goals: []string{"ran", "probe-ran-on-recycled-printer"},
 		Bounds: func(tier string) map[string]interface{} {
-			return map[string]interface{}{"histories": "1 (2 thorough) prior calls from 22 dirtying kinds", "probes": 10, "pool": "adversarial sync.Pool model: Get returns any freed printer or a new one (all choices explored)", "payload": "1 symbolic byte in probe and history", "ownership": "on every path: no load/store/append/copy through memory of a printer (fields, nested structs, first 1024 cells of its buffers) between its Put and its next Get; no store to a package-level variable of the library (or update of a map it holds) outside Register*/init"}
+			return map[string]interface{}{"histories": "1 (2 thorough) prior calls from 25 dirtying kinds", "probes": "10 compared with a fresh process + 3 compared with their specified result (so that the history is the first to show its value types to the library)", "pool": "adversarial sync.Pool model: Get returns any freed printer or a new one (all choices explored)", "payload": "1 symbolic byte in probe and history", "ownership": "on every path: no load/store/append/copy through memory of a printer (fields, nested structs, first 1024 cells of its buffers) between its Put and its next Get; no store to a package-level variable of the library (or update of a map it holds) outside Register*/init"}
 		},
 		Assume:  []string{"INTERLEAVINGS ARE NOT EXPLORED: the executor is sequential. The concurrency half is decided only through a sequential sufficient condition for race freedom between calls on distinct destinations: calls share no memory but pooled printers and library globals, so a call that touches a printer only between its own Get and Put and writes no library global cannot race with another call. A reported breach is confirmed natively by running the path's vector in 8 goroutines x 200 under the race detector."},
 		Stubs:   []string{"sync.Pool: adversarial model with ownership tracking", "reflect emulated"},
